@@ -24,11 +24,16 @@ ExtOK(x, e) ==                      \* x = the state the model reaches by this s
 \* a descriptor of another runtime: Has is false, Get and Set fail, the message is untouched
 \* csproto.Marshal of the message failed or panicked, so "appears in the marshaled bytes" could not be observed
 MarshalFailed(e) == \E s \in 1..3 : e.inb[s] = -1
+\* a value no runtime owns: Has is false, Get / Set / Range report an error (no callback), ClearAll is a no-op, ClearExtension panics (documented)
+ExtUnsOK(e) == e.st = "ok" /\ e.has0 = 1 /\ e.geterr = 1 /\ e.seterr = 1 /\ e.same = 1 /\ e.x1 = 1 /\ e.errc = 1
+\* ExtensionFieldNumber of a run-time built protoreflect.ExtensionType is its number; of anything that is no descriptor: 0 and an error
+ExtNumOK(e) == e.st = "ok" /\ e.same = 1 /\ e.errc = 1
 ExtMisOK(e) == e.has0 = 1 /\ e.geterr = 1 /\ e.seterr = 1 /\ e.unchanged = 1 /\ e.st # "panic"
 
 \* ---- C18: JSON adapters -------------------------------------------------------------------
 JsonOK(e) ==
-  IF e.dir = "marshal"
+  IF e.nilmsg = 2 THEN e.st = "err"                                    \* a non-nil value no runtime owns: an error, not a panic
+  ELSE IF e.dir = "marshal"
   THEN IF e.nilmsg = 1 THEN e.st = "ok" /\ e.outnil = 1
        ELSE /\ e.st = "ok" /\ e.valid = 1
             /\ e.stab = 1                                              \* earlier results are untouched by this call
@@ -51,6 +56,8 @@ TStep == /\ l <= Len(Trace)
                                      /\ mfail' = (IF MarshalFailed(e) THEN Append(mfail, l) ELSE mfail)
                                      /\ UNCHANGED desync
                  [] e.c = "extmis" -> bad' = (IF ExtMisOK(e) THEN bad ELSE Append(bad, l)) /\ UNCHANGED <<desync, xs, mfail>>
+                 [] e.c = "extuns" -> bad' = (IF ExtUnsOK(e) THEN bad ELSE Append(bad, l)) /\ UNCHANGED <<desync, xs, mfail>>
+                 [] e.c = "extnum" -> bad' = (IF ExtNumOK(e) THEN bad ELSE Append(bad, l)) /\ UNCHANGED <<desync, xs, mfail>>
                  [] e.c = "json" -> bad' = (IF JsonOK(e) THEN bad ELSE Append(bad, l)) /\ UNCHANGED <<desync, xs, mfail>>
                  [] OTHER -> desync' = Append(desync, l) /\ UNCHANGED <<bad, xs, mfail>>
 TSpec == TInit /\ [][TStep]_tvars
